@@ -449,3 +449,14 @@ contract(
     returns="=self",
     props=["C14", "C10"],
 )
+
+# check_data on its real body for ndarray input (C14): the assumed contract above is what call sites use (it models the returned frame by its
+# values); this one proves the same raises clause on the code, with the pandas accessors (DataFrame(values), ndim, shape, isna().any) assumed
+contract(
+    target="skchange/utils/validation/data.py::check_data", variant="body/ndarray",
+    params={"X": "real[n,p]", "min_length": "int", "min_length_name": "str", "allow_missing_values": "bool=False"},
+    raises={"ValueError": "HASNAN(X) or n < min_length"},
+    returns="frame:real[n,p]",
+    ensures={"same_values": "payload(result).shape == (n, p) and forall(range(n), range(p), lambda i, j: payload(result)[i, j] == X[i, j])"},
+    props=["C14"],
+)
